@@ -26,7 +26,7 @@ EPOCH_RD = 719163
 
 META = {
     "property": "C02",
-    "proof_modules": ["PyodaProofs.C02"],
+    "proof_modules": ["PyodaProofs.C02", "PyodaProofs.GenAgreeC01"],
     "drivers": ["drv_calendar"],
     "theorems": [
         "Pyoda.C02.gregorian_leap_matches", "Pyoda.C02.gregorian_leap_matches_python", "Pyoda.C02.gregorian_matches_reference",
@@ -40,6 +40,25 @@ META = {
         "Pyoda.C02.refLinear_persianSimple", "Pyoda.C02.refLinear_persianArithmetic",
         "Pyoda.C02.persianSimple_matches_reference", "Pyoda.C02.persianArithmetic_matches_reference",
         "Pyoda.C02.hebrewScriptural_matches_reference", "Pyoda.C02.hebrewCivil_matches_reference",
+        # agreement of the definitions generated from the Python source (tools/py2lean.py) with the model
+        "Pyoda.GenAgree.C01.gen_Greg_isGregorianLeapYear_eq", "Pyoda.GenAgree.C01.gen_Greg_isLeap_eq",
+        "Pyoda.GenAgree.C01.gen_Greg_len_eq", "Pyoda.GenAgree.C01.gen_Greg_start_eq",
+        "Pyoda.GenAgree.C01.gen_Greg_validate_eq", "Pyoda.GenAgree.C01.gen_Greg_validateYmd_eq",
+        "Pyoda.GenAgree.C01.gen_GJ_len_eq", "Pyoda.GenAgree.C01.gen_GJ_dim_eq",
+        "Pyoda.GenAgree.C01.gen_GJ_toMonth_eq", "Pyoda.GenAgree.C01.gen_GJ_split_eq",
+        "Pyoda.GenAgree.C01.gen_Greg_dim_eq", "Pyoda.GenAgree.C01.gen_Greg_toMonth_eq",
+        "Pyoda.GenAgree.C01.gen_Greg_split_eq", "Pyoda.GenAgree.C01.gen_Jul_isLeap_eq",
+        "Pyoda.GenAgree.C01.gen_Jul_start_eq", "Pyoda.GenAgree.C01.gen_Jul_len_eq",
+        "Pyoda.GenAgree.C01.gen_Jul_dim_eq", "Pyoda.GenAgree.C01.gen_Jul_toMonth_eq",
+        "Pyoda.GenAgree.C01.gen_Jul_split_eq", "Pyoda.GenAgree.C01.gen_Copt_isLeap_eq",
+        "Pyoda.GenAgree.C01.gen_Copt_len_eq", "Pyoda.GenAgree.C01.gen_Copt_dim_eq",
+        "Pyoda.GenAgree.C01.gen_Copt_toMonth_eq", "Pyoda.GenAgree.C01.gen_Copt_split_eq",
+        "Pyoda.GenAgree.C01.gen_Copt_start_eq", "Pyoda.GenAgree.C01.gen_Isl_len_eq",
+        "Pyoda.GenAgree.C01.gen_Isl_len_model", "Pyoda.GenAgree.C01.gen_Isl_dim_eq",
+        "Pyoda.GenAgree.C01.gen_Isl_toMonth_eq", "Pyoda.GenAgree.C01.gen_Isl_split_eq",
+        "Pyoda.GenAgree.C01.gen_Pers_len_eq", "Pyoda.GenAgree.C01.gen_Pers_dim_eq",
+        "Pyoda.GenAgree.C01.gen_Pers_toMonth_eq", "Pyoda.GenAgree.C01.gen_Pers_split_eq",
+        "Pyoda.GenAgree.C01.gen_Pers_leapArithmetic_eq",
     ],
     "trusted_base": [
         "the reference formulas are faithful transcriptions of the published algorithms (Reingold & Dershowitz 3rd ed.; "
@@ -51,6 +70,19 @@ META = {
         "(op ref.agree, every run; Lean compiler trusted) together with the proved refAgree_sound; the two Hebrew theorems "
         "additionally take wfCheck (cal.wf 4 / 5, evaluated likewise). ISO/Gregorian, Julian, Coptic and the 8 Islamic calendars "
         "are proved symbolically and evaluated as well",
+        "translator tools/py2lean.py (second tie, besides the correspondence suites): the leap rules, year starts, year and month "
+        "lengths, month starts and day-of-year splits of the Gregorian, Julian, Coptic/fixed-month, tabular Islamic and Persian "
+        "calculators listed under C01 in tools/py2lean_targets.py are re-translated from the current Python source on each run into "
+        "lean/PyodaGen/C01.lean and proved equal to the hand-written calendar model (PyodaProofs/GenAgreeC01.lean; shared by C01 and C02). "
+        "Trusted there: Python int = Lean Int; // and % = Int.fdiv/Int.fmod for non-zero constant divisors; >> by a constant = "
+        "Int.shiftRight; x & (2^k-1) = x mod 2^k; raising calls bound left-to-right in Except PyExc; if-statements by tail duplication; "
+        "virtual calls self._is_leap_year of shared base classes are function parameters instantiated with the generated leap rule of "
+        "each calculator; class-level tables built by a static function at class creation are evaluated from the source by the "
+        "translator's small interpreter (for/range/append/yield) and read with pyIndex (IndexError outside, negative index wraps); "
+        "helpers _towards_zero_division -> pyTdiv, _csharp_modulo -> csharpMod, _check_argument_range -> checkRange, "
+        "_YearMonthDay._ctor -> a plain triple (packing: pack_unpack). Not translated (correspondence only): the year search _get_year "
+        "(while loops), the 1900-2100 table paths of the Gregorian calculator (tables filled in __init__), the Islamic and Persian "
+        "simple/astronomical leap rules (bit tests), Islamic year starts (for loop), Hebrew, Um Al Qura, Badi",
     ],
     "partial": [
         "Persian arithmetic before year 475 is excluded by the property",
